@@ -93,6 +93,9 @@ func buildMountWorld(t *T, want []string, wrap bool, ifsFor ...func(point string
 		if err := mfs.AddMount(p, a); err != nil {
 			t.Fail("addmount", "C06:addmount-refused", fmt.Sprintf("AddMount(%q) on an existing directory failed: %v", p, err))
 		}
+		if core := w.cores[pt]; core != nil && core.live != 0 {
+			t.Fail("addmount", "C06:addmount:handle-left-open", fmt.Sprintf("AddMount(%q) returned with %d handle(s) still open on the file system that holds the mount point; calls: %v", p, core.live, core.calls))
+		}
 		w.parts[p], w.twin[p] = a, b
 		w.points = append(w.points, p)
 	}
@@ -312,6 +315,14 @@ func c06CrossRename(t *T) {
 	}
 	post := w.snapshotParts(w.parts, true)
 	t.Logf("Rename -> %v; fault fired=%q; calls src=%v dst=%v", err, fired, w.cores[srcPt].calls, w.cores[dstPt].calls)
+	for _, pt := range []string{srcPt, dstPt} {
+		// whatever the outcome, the copy's handles are the mount FS's own and are closed when Rename returns (a handle
+		// left open on either side is a difference to "only at the destination" / "both sides unchanged" that the next
+		// Remove on some systems, and every descriptor limit, will notice)
+		if n := w.cores[pt].live; n != 0 {
+			t.Fail("rename", "C06:cross-rename:fault="+fired+":handle-left-open", fmt.Sprintf("Rename(%q,%q) returned (%v) with %d handle(s) still open on the file system mounted at %q; calls: %v", src, dst, err, n, pt, w.cores[pt].calls))
+		}
+	}
 	sig := "C06:cross-rename:fault=" + fired
 	if dstExisted {
 		sig += ":dst-existed"
